@@ -504,9 +504,15 @@ def run(ctx: Ctx):
         da.check_part(ctx, 200 if not ctx.thorough else 3000, "C10")
     finally:
         da.UNM_CHOICES[0] = [0, 0, 0.25]
+    # Is(...) parts below lists / tuples / dict displays / constructor calls nested in each other vs Model/Nest.v
+    from .. import nestassign as na
+    na.check_part(ctx, 400 if not ctx.thorough else 5000, "C10", unm_choices=(0.25, 0.4))
 
 
 def replay(ctx: Ctx, data):
+    if isinstance(data.get("case"), dict) and data["case"].get("kind") == "nest":
+        from .. import nestassign as na
+        return na.replay_case(data["case"])
     if isinstance(data.get("case"), dict) and data["case"].get("kind") in ("dict", "dict-orders"):
         from .. import dictassign as da
         return da.replay_case(data["case"])
